@@ -43,6 +43,14 @@ Print Assumptions C13_get_queue_total.
 
 (** The pinned commit panics (index out of range) as soon as the task table holds a
     finished task — i.e. after any replication, so [SaveSnapshot] panics.  Regression witness. *)
+(** Every task that is not fetched - waiting, being fetched, or failed (a fetch that yielded
+    nothing) - is in the queue that is saved with the snapshot. *)
+Theorem C13_get_queue_keeps_unfinished :
+  forall qlen tasks h st, In (h, st) tasks -> st <> 2%N ->
+    exists q, get_queue true qlen tasks = Ok q /\ In h q.
+Proof. exact get_queue_keeps_unfinished. Qed.
+Print Assumptions C13_get_queue_keeps_unfinished.
+
 Theorem C13_get_queue_refuted :
   exists qlen tasks, (qlen <= length tasks)%nat /\ get_queue false qlen tasks = Panic PIndexRange.
 Proof. exact get_queue_refuted. Qed.
